@@ -1584,17 +1584,24 @@ func (s *lvalByFun) Less(i, j int) bool {
 	a, b := s.cells[i], s.cells[j]
 	// Functions are always copied when being invoked. But the arguments
 	// are not copied in general.
-	var expr *LVal
-	if s.keyfun == nil {
-		expr = SExpr([]*LVal{s.fun, a.Copy(), b.Copy()})
-	} else {
-		expr = SExpr([]*LVal{
-			s.fun,
-			SExpr([]*LVal{s.keyfun, a.Copy()}),
-			SExpr([]*LVal{s.keyfun, b.Copy()}),
-		})
+	//
+	// The functions are CALLED with the elements (and the keys).  Evaluating
+	// a call expression built around them evaluated every element a second
+	// time: a list element such as (+ 1 2) reached the predicate as 3.
+	a, b = a.Copy(), b.Copy()
+	if s.keyfun != nil {
+		a = s.env.FunCall(s.keyfun, SExpr([]*LVal{a}))
+		if a.Type == LError {
+			s.err = a
+			return false
+		}
+		b = s.env.FunCall(s.keyfun, SExpr([]*LVal{b}))
+		if b.Type == LError {
+			s.err = b
+			return false
+		}
 	}
-	ok := s.env.Eval(expr)
+	ok := s.env.FunCall(s.fun, SExpr([]*LVal{a, b}))
 	if ok.Type == LError {
 		s.err = ok
 		return false
@@ -1663,23 +1670,21 @@ func builtinInsertSorted(env *LEnv, args *LVal) *LVal {
 	sortErr := Nil()
 	inCells := seqCells(list)
 	i := sort.Search(len(inCells), func(i int) bool {
-		var expr *LVal
-		if keyFun == nil {
-			expr = SExpr([]*LVal{p, item.Copy(), inCells[i].Copy()})
-		} else {
-			expr = SExpr([]*LVal{
-				p,
-				SExpr([]*LVal{
-					keyFun,
-					item.Copy(),
-				}),
-				SExpr([]*LVal{
-					keyFun,
-					inCells[i].Copy(),
-				}),
-			})
+		// The functions are called with the values; see lvalByFun.Less.
+		a, b := item.Copy(), inCells[i].Copy()
+		if keyFun != nil {
+			a = env.FunCall(keyFun, SExpr([]*LVal{a}))
+			if a.Type == LError {
+				sortErr = a
+				return false
+			}
+			b = env.FunCall(keyFun, SExpr([]*LVal{b}))
+			if b.Type == LError {
+				sortErr = b
+				return false
+			}
 		}
-		ok := env.Eval(expr)
+		ok := env.FunCall(p, SExpr([]*LVal{a, b}))
 		if ok.Type == LError {
 			sortErr = ok
 			return false
@@ -2497,8 +2502,10 @@ func builtinAllP(env *LEnv, args *LVal) *LVal {
 		return env.Errorf("second argument is not a proper sequence: %v", list.Type)
 	}
 	for _, v := range seqCells(list) {
-		expr := SExpr([]*LVal{pred, v})
-		ok := env.Eval(expr)
+		// The predicate is CALLED with the element.  Evaluating a call
+		// expression built around the element evaluated the element a second
+		// time: a list element such as (+ 1 2) reached the predicate as 3.
+		ok := env.FunCall(pred, SExpr([]*LVal{v}))
 		if ok.Type == LError {
 			return ok
 		}
@@ -2522,8 +2529,7 @@ func builtinAnyP(env *LEnv, args *LVal) *LVal {
 		return env.Errorf("second argument is not a list: %v", list.Type)
 	}
 	for _, v := range seqCells(list) {
-		expr := SExpr([]*LVal{pred, v})
-		ok := env.Eval(expr)
+		ok := env.FunCall(pred, SExpr([]*LVal{v}))
 		if ok.Type == LError {
 			return ok
 		}
